@@ -8,6 +8,11 @@ From Coq Require Import ZArith List Bool Arith Lia Permutation.
 From SP Require Import Model.Num Model.Arrow Model.Bounds Model.Rtree Model.Inert
                        Spec.BoundsSpec Spec.Boxes Spec.InertSpec
                        Proofs.InertProofs Proofs.InertRtree.
+From SP Require Import Model.Measures Spec.MeasuresSpec Proofs.MeasuresArrayProofs
+                       Proofs.InertMeasures.
+From SP Require Import Model.PointKernels Model.PointShape Model.Intersect Proofs.InertPredicates.
+From SP Require Import Proofs.InertArrayBounds Proofs.InertSjoin.
+From SP Require Import Model.DaskModel Model.Sjoin Spec.DaskSpec Spec.SjoinSpec Proofs.InertFrames.
 Import ListNotations.
 Local Open Scope nat_scope.
 
@@ -107,6 +112,127 @@ Theorem C17_total_bounds_ignores_point : forall a a' l,
 Proof. exact fa_total_ignores_inert. Qed.
 Print Assumptions C17_total_bounds_ignores_point.
 
+(* ---- (a) predicates ---- *)
+
+(* PointArray.intersects(shape) (C02 model, any shape kind): the slot of a missing
+   point answers False whatever placeholder bytes it holds; whole-array form and
+   the form restricted to positions *)
+Theorem C17_intersects_false : forall a s r i,
+  array_intersects a s None = Some (Value r) ->
+  i < fa_len a -> i < length r ->
+  isna_at (fa_valid a) (fa_off a) i = true ->
+  nth i r true = false.
+Proof. exact array_intersects_missing_false. Qed.
+Print Assumptions C17_intersects_false.
+
+Theorem C17_intersects_inds_false : forall a s l r k,
+  array_intersects a s (Some l) = Some (Value r) ->
+  k < length l -> k < length r -> nth k l 0 < fa_len a ->
+  isna_at (fa_valid a) (fa_off a) (nth k l 0) = true ->
+  nth k r true = false.
+Proof. exact array_intersects_inds_missing_false. Qed.
+Print Assumptions C17_intersects_inds_false.
+
+(* intersects_bounds kernels (C01 model): an element that spans no coordinates
+   (missing with an empty range, [], [[]], ...) intersects no box *)
+Theorem C17_intersects_bounds_false_multipoint : forall x0 y0 x1 y1 vals s e,
+  slice s e vals = [] -> perform_multipoint x0 y0 x1 y1 vals s e = false.
+Proof. exact perform_multipoint_empty. Qed.
+Print Assumptions C17_intersects_bounds_false_multipoint.
+
+Theorem C17_intersects_bounds_false_line : forall x0 y0 x1 y1 vals s e,
+  slice s e vals = [] -> perform_line x0 y0 x1 y1 vals s e = false.
+Proof. exact perform_line_empty. Qed.
+Print Assumptions C17_intersects_bounds_false_line.
+
+Theorem C17_intersects_bounds_false_polygon : forall x0 y0 x1 y1 vals offsets1 s0 e0,
+  slice (getn offsets1 s0) (getn offsets1 e0) vals = [] ->
+  perform_polygon x0 y0 x1 y1 vals offsets1 s0 e0 = false.
+Proof. exact perform_polygon_empty. Qed.
+Print Assumptions C17_intersects_bounds_false_polygon.
+
+Theorem C17_intersects_bounds_false_multiline : forall x0 y0 x1 y1 vals offsets1 s0 e0,
+  (forall s e, In (s, e) (opairs (slice s0 (e0 + 1) offsets1)) -> slice s e vals = []) ->
+  perform_multiline x0 y0 x1 y1 vals offsets1 s0 e0 = false.
+Proof. exact perform_multiline_empty. Qed.
+Print Assumptions C17_intersects_bounds_false_multiline.
+
+Theorem C17_intersects_bounds_false_multipolygon :
+  forall x0 y0 x1 y1 vals offsets1 offsets2 s0 e0,
+  (forall s e, In (s, e) (opairs (slice s0 (e0 + 1) offsets1)) ->
+               slice (getn offsets2 s) (getn offsets2 e) vals = []) ->
+  perform_multipolygon x0 y0 x1 y1 vals offsets1 offsets2 s0 e0 = false.
+Proof. exact perform_multipolygon_empty. Qed.
+Print Assumptions C17_intersects_bounds_false_multipolygon.
+
+(* the premise of the two multi-level kernels follows from the offsets: when the
+   element's first and last inner offsets are equal, every sub-range is (v, v) *)
+Theorem C17_subranges_empty : forall offs s0 e0 s e,
+  mono offs = true -> s0 <= e0 -> e0 < length offs ->
+  getn offs s0 = getn offs e0 ->
+  In (s, e) (opairs (slice s0 (e0 + 1) offs)) -> s = getn offs s0 /\ e = getn offs s0.
+Proof. exact opairs_slice_flat. Qed.
+Print Assumptions C17_subranges_empty.
+
+Theorem C17_intersects_bounds_false_point : forall b, point_test b None = false.
+Proof. exact point_test_missing. Qed.
+Print Assumptions C17_intersects_bounds_false_point.
+
+(* the array classes' intersects_bounds (C01 model, whole-array form), every
+   list-backed kind: the row of an element that spans no coordinates — its outer
+   offsets are equal: a missing element under [nulls_empty], [], [[]], [[], []], ... —
+   is False for every box *)
+Theorem C17_intersects_bounds_false : forall a b r i,
+  (multipoint_array a b None = Some r \/ line_array a b None = Some r \/
+   multiline_array a b None = Some r \/ polygon_array a b None = Some r \/
+   multipolygon_array a b None = Some r) ->
+  i < la_len a ->
+  getn (buffer_outer_offsets a) i = getn (buffer_outer_offsets a) (S i) ->
+  nth i r true = false.
+Proof. exact list_array_empty_false. Qed.
+Print Assumptions C17_intersects_bounds_false.
+
+(* the premise "spans no coordinates" of C17_intersects_bounds_false holds for a
+   missing element (under [nulls_empty]) and for every element whose coordinate
+   list is empty *)
+Theorem C17_missing_spans_nothing : forall a i,
+  nulls_empty a = true -> i < la_len a ->
+  isna_at (la_valid a) (la_off a) i = true ->
+  getn (buffer_outer_offsets a) i = getn (buffer_outer_offsets a) (S i).
+Proof. exact missing_spans_nothing. Qed.
+Print Assumptions C17_missing_spans_nothing.
+
+Theorem C17_empty_spans_nothing : forall a i,
+  wf_listarr a = true -> i < la_len a -> elem_flat a i = [] ->
+  getn (buffer_outer_offsets a) i = getn (buffer_outer_offsets a) (S i).
+Proof. exact empty_spans_nothing. Qed.
+Print Assumptions C17_empty_spans_nothing.
+
+(* PointArray.intersects_bounds: a missing point is in no box *)
+Theorem C17_intersects_bounds_false_point_array : forall a b r i,
+  point_array a b None = Some r -> i < fa_len a ->
+  isna_at (fa_valid a) (fa_off a) i = true ->
+  nth i r true = false.
+Proof. exact point_array_missing_false. Qed.
+Print Assumptions C17_intersects_bounds_false_point_array.
+
+(* ---- (a) measures of a missing element are NaN (from C14's array_is_map;
+   [even_inner], the guard of that theorem, is asserted by the C14 run) ---- *)
+
+Theorem C17_measures_nan : forall k a i dl,
+  length (la_offs a) = depth k -> wf_listarr a = true -> even_inner a = true ->
+  i < la_len a -> isna_at (la_valid a) (la_off a) i = true ->
+  nth i (arr_area k a) (Some 0%Z) = None /\
+  nth i (arr_length k a) (Some dl) = None.
+Proof. exact measures_missing_nan. Qed.
+Print Assumptions C17_measures_nan.
+
+Theorem C17_measures_nan_point : forall a i dl,
+  i < fa_len a -> isna_at (fa_valid a) (fa_off a) i = true ->
+  nth i (pt_area a) (Some 0%Z) = None /\ nth i (pt_length a) (Some dl) = None.
+Proof. exact pt_measures_missing_nan. Qed.
+Print Assumptions C17_measures_nan_point.
+
 (* ---- the Hilbert R-tree with NaN rows (proved outright, from C03's exactness
    theorems C03_intersects / C03_covers_overlaps) ---- *)
 
@@ -156,6 +282,143 @@ Theorem C17_rtree_overlaps_unchanged : forall d rows' keys' keys ps' ps q,
 Proof. exact rtree_overlaps_others_unchanged. Qed.
 Print Assumptions C17_rtree_overlaps_unchanged.
 
+(* ---- frames: instances of the generic lemma.  [rbox], [hits] are the per-row
+   answers (bounds row, intersects_bounds) of the frame's geometry column; the two
+   premises about inert rows are what C17_bounds_nan* and
+   C17_intersects_bounds_false_* establish for the array models ---- *)
+
+(* Dask total_bounds: entire partitions of inert rows, and inert rows anywhere,
+   are ignored (proved outright on the C06 model, from C06's total_bounds_concat) *)
+Theorem C17_total_bounds_dask :
+  forall (R : Type) (rbox : R -> bbox) (inert : R -> bool),
+    (forall r, inert r = true -> rbox r = nanbox) ->
+    forall parts,
+      dask_total_bounds R rbox parts =
+      pandas_total_bounds R rbox (filter (fun r => negb (inert r)) (concat parts)).
+Proof. exact dask_total_ignores_inert. Qed.
+Print Assumptions C17_total_bounds_dask.
+
+Theorem C17_total_bounds_dask_same :
+  forall (R : Type) (rbox : R -> bbox) (inert : R -> bool),
+    (forall r, inert r = true -> rbox r = nanbox) ->
+    forall parts parts',
+      filter (fun r => negb (inert r)) (concat parts') =
+      filter (fun r => negb (inert r)) (concat parts) ->
+      dask_total_bounds R rbox parts' = dask_total_bounds R rbox parts.
+Proof. exact dask_total_same. Qed.
+Print Assumptions C17_total_bounds_dask_same.
+
+(* cx on a pandas frame = exactly the rows whose geometry intersects the box, in
+   frame order (the statement of C04, here the definition [pandas_cx]): the
+   selection with inert rows present is the selection without them, and no inert
+   row is selected; also with omitted ends, which are filled from total_bounds *)
+Theorem C17_cx_unchanged :
+  forall (R : Type) (hits : R -> list Z -> bool) (inert : R -> bool),
+    (forall r q, inert r = true -> hits r q = false) ->
+    forall rows q,
+      pandas_cx R hits rows q = pandas_cx R hits (filter (fun r => negb (inert r)) rows) q.
+Proof. exact pandas_cx_ignores_inert. Qed.
+Print Assumptions C17_cx_unchanged.
+
+Theorem C17_cx_never_selected :
+  forall (R : Type) (hits : R -> list Z -> bool) (inert : R -> bool),
+    (forall r q, inert r = true -> hits r q = false) ->
+    forall rows q r, In r (pandas_cx R hits rows q) -> inert r = false.
+Proof. exact pandas_cx_never_inert. Qed.
+Print Assumptions C17_cx_never_selected.
+
+Theorem C17_cx_open_ends_unchanged :
+  forall (R : Type) (rbox : R -> bbox) (hits : R -> list Z -> bool) (inert : R -> bool),
+    (forall r, inert r = true -> rbox r = nanbox) ->
+    (forall r q, inert r = true -> hits r q = false) ->
+    forall rows k,
+      pandas_frame_cx R rbox hits rows k =
+      pandas_frame_cx R rbox hits (filter (fun r => negb (inert r)) rows) k.
+Proof. exact pandas_frame_cx_ignores_inert. Qed.
+Print Assumptions C17_cx_open_ends_unchanged.
+
+(* Dask cx: corollary of contract C06_cx (theorem cx_concat of property C06, itself
+   under the C03 / C01 contracts rtree_select_contract, rtree_total_contract,
+   hits_contract): what the Dask frame returns is the pandas selection over the
+   non-inert rows, whatever partitions the inert rows fill *)
+Theorem C17_cx_dask_unchanged :
+  forall (R : Type) (rbox : R -> bbox) (hits : R -> list Z -> bool) (inert : R -> bool),
+    (forall r, inert r = true -> rbox r = nanbox) ->
+    (forall r q, inert r = true -> hits r q = false) ->
+    rtree_select_contract -> rtree_total_contract -> hits_contract rbox hits ->
+    forall (parts : list (list R)) (keys : list nat),
+      (forall r, In r (concat parts) -> wf_bbox (rbox r)) ->
+      Permutation keys (seq 0 (length parts)) ->
+      forall k,
+        concat (dask_cx R rbox hits parts keys k) =
+        pandas_frame_cx R rbox hits (filter (fun r => negb (inert r)) (concat parts)) k.
+Proof. exact dask_cx_ignores_inert. Qed.
+Print Assumptions C17_cx_dask_unchanged.
+
+(* sjoin: corollary of contract C05_pairs_exact (property C05), whose conclusion
+   [pair_enum] is the premise here: no pair of the join involves a missing left
+   point or a missing right shape; such rows are exactly "unmatched" rows of the
+   outer joins (C05_left / C05_right list them once, without partner) *)
+Theorem C17_sjoin_unmatched : forall a rgeoms ps l r,
+  pair_enum a rgeoms ps -> In (l, r) ps ->
+  isna_at (fa_valid a) (fa_off a) l = false /\ nth_error rgeoms r <> Some None /\
+  nth_error rgeoms r <> None.
+Proof. exact sjoin_pairs_never_missing. Qed.
+Print Assumptions C17_sjoin_unmatched.
+
+Theorem C17_sjoin_missing_left_kept : forall a rgeoms ps l,
+  pair_enum a rgeoms ps -> l < fa_len a ->
+  isna_at (fa_valid a) (fa_off a) l = true ->
+  In l (unmatched_left (fa_len a) ps).
+Proof. exact sjoin_missing_left_unmatched. Qed.
+Print Assumptions C17_sjoin_missing_left_kept.
+
+Theorem C17_sjoin_missing_right_kept : forall a rgeoms ps r,
+  pair_enum a rgeoms ps -> nth_error rgeoms r = Some None ->
+  In r (unmatched_right (length rgeoms) ps).
+Proof. exact sjoin_missing_right_unmatched. Qed.
+Print Assumptions C17_sjoin_missing_right_kept.
+
+(* (b) for sjoin: with inert rows inserted anywhere on either side (left: missing
+   or non-finite points; right: missing shapes), the pair table is exactly the
+   order-preservingly renumbered pair table of the frames without them.  Premises:
+   both tables enumerate the intersecting pairs ([pair_enum] = the conclusion of
+   contract C05_pairs_exact of property C05) *)
+Theorem C17_sjoin_others_unchanged :
+  forall (a a' : fixarr) (rgeoms rgeoms' : list (option shape)) (ps ps' : list (nat * nat)),
+    insert_inert inert_pt (fa_decode a) (fa_decode a') ->
+    insert_inert rmissing rgeoms rgeoms' ->
+    pair_enum a rgeoms ps -> pair_enum a' rgeoms' ps' ->
+    forall l' r',
+      In (l', r') ps' <->
+      (exists l r, In (l, r) ps /\
+                   l' = renumber (map inert_pt (fa_decode a')) l /\
+                   r' = renumber (map rmissing rgeoms') r).
+Proof. exact sjoin_pairs_renumbered. Qed.
+Print Assumptions C17_sjoin_others_unchanged.
+
+(* the renumbering is a bijection from the rows of the short list onto the rows
+   that stay in the long list, and it preserves the elements *)
+Theorem C17_renumber_nth : forall (A : Type) (inert : A -> bool) l i d,
+  i < length (filter (fun x => negb (inert x)) l) ->
+  renumber (map inert l) i < length l /\
+  nth (renumber (map inert l) i) l d = nth i (filter (fun x => negb (inert x)) l) d.
+Proof. exact renumber_nth. Qed.
+Print Assumptions C17_renumber_nth.
+
+Theorem C17_renumber_onto : forall (A : Type) (inert : A -> bool) l j d,
+  j < length l -> inert (nth j l d) = false ->
+  exists i, i < length (filter (fun x => negb (inert x)) l) /\
+            renumber (map inert l) i = j.
+Proof. exact renumber_onto. Qed.
+Print Assumptions C17_renumber_onto.
+
+(* the executable guard the correspondence run evaluates on every exported array
+   is the conjunction of the two guards the theorems carry *)
+Theorem C17_guards : forall a, la_guards a = nulls_empty a && even_outer a.
+Proof. exact la_guards_spec. Qed.
+Print Assumptions C17_guards.
+
 (* ---- non-vacuity ---- *)
 
 (* a polygon-like array (2 levels) sliced at offset 1: slot 0 holds a ring, slot 1
@@ -190,7 +453,7 @@ Example ex_case :
   Some ([false; true; true; true; true; false],
         [(Some 1, Some (-3), Some 4, Some 5); nanbox; nanbox; nanbox; nanbox;
          (Some (-2), Some 0, Some 7, Some 9)],
-        (Some (-2), Some (-3), Some 7, Some 9), (true, true))%Z.
+        (Some (-2), Some (-3), Some 7, Some 9), (true, true, true))%Z.
 Proof. vm_compute. reflexivity. Qed.
 
 Example ex_renumber :
@@ -217,4 +480,34 @@ Example ex_rtree :
          [Some 4; Some 4; Some 6; Some 6]; [None; Some 2; Some 4; Some 4]]%Z,
      [0; 1; 3; 2], [0; 1], 2, [[0; 0; 10; 10]; [0; 0; 5; 5]; [7; 7; 9; 9]]%Z) =
   ([([0; 2], [0; 2], []); ([0; 2], [0], [2]); ([], [], [])], true).
+Proof. vm_compute. reflexivity. Qed.
+
+(* predicates on a concrete 2-level array with finite coordinates: a square, a
+   missing slot, [], [[]], a second square; the box (0,0,10,10) meets both squares *)
+Definition ex_ib : listarr :=
+  {| la_off := 0; la_len := 5; la_valid := Some [true; false; true; true; true];
+     la_offs := [[0; 1; 1; 1; 2; 3]; [0; 10; 10; 20]];
+     la_vals := map Some [1; 1; 3; 1; 3; 3; 1; 3; 1; 1;
+                          5; 5; 7; 5; 7; 7; 5; 7; 5; 5]%Z |}.
+Example ex_ib_polygon :
+  polygon_array ex_ib (0, 0, 10, 10)%Z None = Some [true; false; false; false; true].
+Proof. vm_compute. reflexivity. Qed.
+Example ex_ib_multiline :
+  multiline_array ex_ib (0, 0, 10, 10)%Z None = Some [true; false; false; false; true].
+Proof. vm_compute. reflexivity. Qed.
+Example ex_ib_outer : buffer_outer_offsets ex_ib = [0; 10; 10; 10; 10; 20].
+Proof. vm_compute. reflexivity. Qed.
+
+(* a missing point whose placeholder (0,0) lies inside the polygon *)
+Definition ex_mp : fixarr :=
+  {| fa_off := 0; fa_len := 3; fa_valid := Some [true; false; true];
+     fa_vals := map Some [1; 1; 0; 0; 9; 9]%Z |}.
+Example ex_mp_intersects :
+  array_intersects ex_mp
+    (ShPolygon (BList {| la_off := 0; la_len := 1; la_valid := None;
+                         la_offs := [[0; 10]];
+                         la_vals := map Some [-2; -2; 2; -2; 2; 2; -2; 2; -2; -2]%Z |})) None
+  = Some (Value [true; false; false]).
+Proof. vm_compute. reflexivity. Qed.
+Example ex_mp_bounds : point_array ex_mp (-5, -5, 5, 5)%Z None = Some [true; false; false].
 Proof. vm_compute. reflexivity. Qed.
